@@ -412,6 +412,9 @@ func c15Workbook(w *vx.W) {
 			if !ok || f.Num > 255 {
 				continue
 			}
+			if e.Sindex < 0 || e.Sindex >= mt.NumField() {
+				continue // reported by the static check
+			}
 			common++
 			w.Eval(1)
 			got := mt.Field(e.Sindex).Name
